@@ -25,13 +25,16 @@ RULE = (
     'noise, repeated/adjacent placeholder}.'
 )
 ASSUMPTIONS = [
-    'placeholder NAMEs are identifiers not starting with "_" (object global_vars expose dunder attributes)',
+    'placeholder NAMEs of OBJECT global_vars are identifiers not starting with "_" (objects expose dunder attributes); '
+    'mapping global_vars also define names with hyphens, blanks, dots, colons and non-ASCII letters',
     'placeholders are generated in string VALUES only, not in mapping keys (the statement says "every string ... of a '
     'config\'s data"; whether keys count is ambiguous, the library never substitutes keys)',
     'JSON-like containers only (lists / str-keyed dicts); tuples and sets cannot be substituted in place',
 ]
 
 NAMES = ['A', 'B', 'DIR', 'x1', 'Long_Name']
+# names only a MAPPING can define (any string is a key): hyphens, blanks, dots, colons, non-ASCII
+MAP_NAMES = ['data-dir', 'my var', 'model.v2', 'k:1', 'é']
 UNDEF = ['U', 'AA', 'a', 'undefined', 'A B', 'A.B', '0', 'values', 'items', 'keys', 'get', 'copy']
 LITERALS = ['', 'x', '/', ' ', 'ab/c', '$', '\\', "'", '"', 'é', ':', '%s', '{0}'.replace('{0}', 'q')]
 NOISE = ['{', '}', '{}', '{{', '}}', '{ }']
@@ -41,6 +44,7 @@ fragment = st.one_of(
     st.sampled_from(NAMES).map(lambda n: '{' + n + '}'),
     st.sampled_from(NAMES).map(lambda n: '{' + n + '}'),
     st.sampled_from(UNDEF).map(lambda n: '{' + n + '}'),
+    st.sampled_from(MAP_NAMES).map(lambda n: '{' + n + '}'),
     st.sampled_from(NOISE),
     st.sampled_from(NAMES).map(lambda n: '{{' + n + '}}'),
     st.sampled_from(NAMES).map(lambda n: '{x{' + n + '}'),
@@ -58,8 +62,9 @@ gv_values = st.one_of(st.sampled_from(['v', '', '/data', '{B}', '{A}', '{U}', 'a
 
 @st.composite
 def gvars(draw):
-    names = draw(st.lists(st.sampled_from(NAMES), min_size=1, max_size=4, unique=True))
-    return {'as_object': draw(st.booleans()), 'vals': {n: draw(gv_values) for n in names}}
+    as_object = draw(st.booleans())
+    names = draw(st.lists(st.sampled_from(NAMES if as_object else NAMES + MAP_NAMES), min_size=1, max_size=4, unique=True))
+    return {'as_object': as_object, 'vals': {n: draw(gv_values) for n in names}}
 
 
 def make_gv(spec, as_object=None):
@@ -128,10 +133,10 @@ def classify(struct, vals):
         if not isinstance(leaf, str):
             continue
         defined = sum(leaf.count('{' + n + '}') for n in vals)
-        undefined = any(('{' + u + '}') in leaf for u in UNDEF) or any(('{' + n + '}') in leaf for n in NAMES if n not in vals)
+        undefined = any(('{' + u + '}') in leaf for u in UNDEF) or any(('{' + n + '}') in leaf for n in NAMES + MAP_NAMES if n not in vals)
         out, _ = ref_sub(leaf, vals)
         stripped = leaf
-        for n in NAMES + UNDEF:
+        for n in NAMES + MAP_NAMES + UNDEF:
             stripped = stripped.replace('{' + n + '}', '')
         noise = '{' in stripped or '}' in stripped
         if defined:
